@@ -94,6 +94,14 @@ class Normalise(Sub):
         req(d.days == raw(nat)[0], "days property differs from timedelta.days", got=d.days)
         pd = pendulum.duration(**kw)
         req(type(pd) is Duration and raw(pd) == raw(d), "pendulum.duration() differs from Duration()")
+        # the same arguments passed POSITIONALLY, in timedelta's own order (days, seconds, microseconds, milliseconds, minutes, hours, weeks) followed by
+        # years, months: a Duration is a drop-in timedelta, so positional calls written for timedelta must mean the same
+        pos = tuple(kw.get(k, 0) for k in ("days", "seconds", "microseconds", "milliseconds", "minutes", "hours", "weeks", "years", "months"))
+        for nm, f in (("Duration(*positional)", lambda: Duration(*pos)), ("pendulum.duration(*positional)", lambda: pendulum.duration(*pos)),
+                      ("Duration(*timedelta_order_prefix)", lambda: Duration(*pos[:7], years=pos[7], months=pos[8]))):
+            dp = f()
+            req(raw(dp) == raw(d) and (dp.years, dp.months) == (y, mo), f"{nm} differs from the keyword construction with the same values", positional=pos, got=raw(dp),
+                expected=raw(d))
         total = tdus(nat)
         signs = {(v > 0) - (v < 0) for v in kw.values()} - {0}
         nt = len(signs) > 1 or (part < 0 and part % US != 0) or any(abs(v) >= lim for k, v in rest_kw.items()
